@@ -684,6 +684,50 @@ pub fn families_c14() -> Vec<Pair> {
 		"impl Drop for MyKey { fn drop(&mut self) {} }",
 		"impl happylock::key::sealed::Sealed for MyKey {}",
 	));
+	// K9b: no type that carries a key (or a key and a hold) may be Send, whatever it is wrapped in
+	{
+		let header = format!(
+			"{PRELUDE}\npub trait HasRaw {{ type Raw; }}\nimpl<T, R> HasRaw for happylock::mutex::Mutex<T, R> {{ type Raw = R; }}\nimpl<T, R> HasRaw for happylock::rwlock::RwLock<T, R> {{ type Raw = R; }}\ntype RawM = <happylock::mutex::ParkingMutex<()> as HasRaw>::Raw;\ntype RawR = <happylock::rwlock::ParkingRwLock<()> as HasRaw>::Raw;\n"
+		);
+		let mref = "MutexRef<'static, i32, RawM>";
+		let carriers: Vec<(String, String)> = vec![
+			("ThreadKey".into(), "ThreadKey".into()),
+			("MutexGuard".into(), "MutexGuard<'static, i32, RawM>".into()),
+			("RwLockReadGuard".into(), "RwLockReadGuard<'static, i32, RawR>".into()),
+			("RwLockWriteGuard".into(), "RwLockWriteGuard<'static, i32, RawR>".into()),
+			("LockGuard<(MutexRef,)>".into(), format!("LockGuard<({mref},)>")),
+			("LockGuard<Box<[MutexRef]>>".into(), format!("LockGuard<Box<[{mref}]>>")),
+			("LockGuard<()>".into(), "LockGuard<()>".into()),
+			("PoisonGuard<MutexRef>".into(), format!("PoisonGuard<'static, {mref}>")),
+			("TryLockPoisonableError<MutexRef>".into(), format!("TryLockPoisonableError<'static, {mref}>")),
+			("TryLockPoisonableError<()>".into(), "TryLockPoisonableError<'static, ()>".into()),
+		];
+		let wrappers: Vec<(&str, &str)> = vec![
+			("bare", "$K"),
+			("PoisonError", "PoisonError<$K>"),
+			("Result<_, ThreadKey>", "Result<$K, ThreadKey>"),
+			("Result<i32, _>", "Result<i32, $K>"),
+			("Option", "Option<$K>"),
+			("tuple", "($K, i32)"),
+			("Box", "Box<$K>"),
+			("Vec", "Vec<$K>"),
+			("&mut", "&'static mut $K"),
+		];
+		for (cn, cty) in &carriers {
+			for (wn, wty) in &wrappers {
+				let ty = wty.replace("$K", cty);
+				let prog = |bound: &str| format!("{header}fn need<X{bound}>() {{}}\npub fn probe() {{\n//<<\n    need::<{ty}>();\n//>>\n}}\n");
+				v.push(Pair {
+					prop: "C14".into(),
+					family: "K9-key-carrying-type-is-send".into(),
+					name: format!("{wn} of {cn}"),
+					twin: prog(": ?Sized"),
+					offending: prog(": Send"),
+					std_offending: None,
+				});
+			}
+		}
+	}
 	// K11: key-less holds through the unsafe trait methods from safe code
 	for (lockname, ctor) in [("Mutex", "Mutex::new(0)"), ("RwLock", "RwLock::new(0)")] {
 		for (what, call) in [
@@ -943,6 +987,55 @@ pub fn families_c07() -> Vec<Pair> {
 			));
 		}
 		let _ = pre;
+	}
+	v
+}
+
+/// Type expressions over the lock / container / collection constructors, with
+/// the reference verdict "owns all of its locks" (no shared reference and no
+/// by-reference collection anywhere inside).
+fn lockable_type_grammar(depth: usize) -> Vec<(String, bool)> {
+	let leaves: Vec<(String, bool)> = vec![("Mutex<i32>".into(), true), ("RwLock<i32>".into(), true)];
+	if depth == 0 {
+		return leaves;
+	}
+	let inner = lockable_type_grammar(depth - 1);
+	let mut out = leaves;
+	for (t, owned) in &inner {
+		out.push((format!("&'static {t}"), false));
+		out.push((format!("&'static mut {t}"), *owned));
+		out.push((format!("Poisonable<{t}>"), *owned));
+		out.push((format!("({t}, Mutex<i32>)"), *owned));
+		out.push((format!("[{t}; 2]"), *owned));
+		out.push((format!("Vec<{t}>"), *owned));
+		out.push((format!("Box<[{t}]>"), *owned));
+		out.push((format!("LockCollection<{t}>"), *owned));
+		out.push((format!("OwnedLockCollection<{t}>"), *owned));
+		out.push((format!("RetryingLockCollection<{t}>"), *owned));
+		out.push((format!("RefLockCollection<'static, {t}>"), false));
+	}
+	out.sort();
+	out.dedup();
+	out
+}
+
+/// The unchecked constructors are gated on `OwnedLockable`: no type that can
+/// reach a lock through a shared reference may implement it.
+pub fn families_owned_lockable() -> Vec<Pair> {
+	let mut v = Vec::new();
+	for (ty, owned) in lockable_type_grammar(2) {
+		if owned {
+			continue;
+		}
+		let prog = |bound: &str| format!("{PRELUDE}\nfn need<X: {bound}>() {{}}\npub fn probe() {{\n//<<\n    need::<{ty}>();\n//>>\n}}\n");
+		v.push(Pair {
+			prop: "C07".into(),
+			family: "C07-borrowing-type-is-not-OwnedLockable".into(),
+			name: ty.clone(),
+			twin: prog("Lockable"),
+			offending: prog("OwnedLockable"),
+			std_offending: None,
+		});
 	}
 	v
 }
